@@ -1325,7 +1325,7 @@ class EEA:
         out: dict = {}
         for v in sorted(vals, key=repr):
             if isinstance(v, Absent):
-                out = self.merge(out, self._one(S.AE, self.site(fr, e, "getattr-absent", f"getattr -> {v.owner.rsplit('.', 2)[-2]}.{v.owner.rsplit('.', 1)[-1]}.{v.name} missing"), fr))
+                out = self.merge(out, self._one(S.AE, self.site(fr, e, "getattr-absent", f"getattr -> {v.owner.rsplit('.', 1)[-1]}.{v.name} missing"), fr))
         return out
 
     def target_escapes(self, t: Target, e: ast.Call, st: St) -> dict:
